@@ -285,7 +285,7 @@ fn take(bytes: &[u8], i: &mut usize) -> u8 {
 pub fn targeted(kind: u8, bytes: &[u8]) -> [Cid; 7] {
     let mut cards: Vec<Cid> = vec![];
     let mut i = 0usize;
-    let mut add = |cards: &mut Vec<Cid>, c: Cid| {
+    let add = |cards: &mut Vec<Cid>, c: Cid| {
         if !cards.contains(&c) && cards.len() < 7 {
             cards.push(c);
         }
